@@ -14,6 +14,7 @@ pub mod util;
 pub mod c10;
 pub mod c12;
 pub mod c16;
+pub mod c18;
 pub mod quire;
 
 pub type RunFn = fn(&mut Report);
@@ -31,6 +32,7 @@ pub static ALL: &[(&str, RunFn, ReplayFn)] = &[
     ("C09", c09::run, c09::replay),
     ("C10", c10::run, c10::replay),
     ("C12", c12::run, c12::replay),
+    ("C18", c18::run, c18::replay),
 ];
 
 /// `--replay <file>`: re-evaluate one saved case with plain code (no proptest) on the current tree
